@@ -213,7 +213,8 @@ Section Model.
     match pl with
     | [] => inl ([], hints)
     | (pos, h) :: rest =>
-        let viaHint :=
+        (* a thunk: under extraction a plain [let] would be evaluated eagerly in both branches *)
+        let viaHint := fun (_ : unit) =>
           match stepHint pos h hints with
           | inr e => inr e
           | inl (nh, hints') => match upV rest hints' with
@@ -232,8 +233,8 @@ Section Model.
                            | inr e => inr e
                            end
               end
-            else viaHint
-        | [] => viaHint
+            else viaHint tt
+        | [] => viaHint tt
         end
     end.
 
